@@ -141,6 +141,29 @@ def _table(rng):
     return [float(x) for x in xs], ys
 
 
+def _related(rng, xs, ys):
+    """A table close to the one an object already holds - the same abscissae with the ordinates reversed, shuffled,
+    two of them exchanged or moved by opposite amounts (same count, same sums), or the abscissae mirrored: what a
+    'the table has not changed' shortcut keyed on a digest of the data takes for the old table (round 7: C17-h)."""
+    how = rng.choice(['reverse_y', 'shuffle_y', 'swap_two_y', 'opposite_bumps_y', 'mirror_x'])
+    xs, ys = list(xs), list(ys)
+    if how == 'reverse_y':
+        ys = ys[::-1]
+    elif how == 'shuffle_y':
+        rng.shuffle(ys)
+    elif how == 'swap_two_y':
+        i, j = rng.sample(range(len(ys)), 2)
+        ys[i], ys[j] = ys[j], ys[i]
+    elif how == 'opposite_bumps_y':
+        i, j = rng.sample(range(len(ys)), 2)
+        ys[i] += 1.0
+        ys[j] -= 1.0
+    else:
+        lo, hi = xs[0], xs[-1]
+        xs = sorted(lo + hi - x for x in xs)
+    return xs, ys
+
+
 def interpolation_history(ctx, rng, n):
     from pymeeus.Interpolation import Interpolation
     for _ in range(n):
@@ -150,12 +173,12 @@ def interpolation_history(ctx, rng, n):
         # a copy made now must not be affected by anything done to the original later (and the other way round)
         peer, pxs, pys = Interpolation(it), list(xs), list(ys)
         for _k in range(rng.randint(2, 5)):
-            op = rng.choice(['view', 'view', 'set', 'copyset'])
+            op = rng.choice(['view', 'view', 'set', 'copyset', 'set', 'copyset'])
             if op == 'view':
                 name = rng.choice(['call', 'derivative', 'root', 'minmax'])
                 steps.append(['view', name])
             else:
-                xs, ys = _table(rng)
+                xs, ys = _related(rng, xs, ys) if rng.random() < 0.5 else _table(rng)
                 if op == 'set':
                     it.set(xs, ys)
                 else:
@@ -205,7 +228,7 @@ def curvefitting_history(ctx, rng, n):
         for _k in range(rng.randint(2, 4)):
             op = rng.choice(['view', 'set', 'copyset'])
             if op != 'view':
-                xs, ys = _table(rng)
+                xs, ys = _related(rng, xs, ys) if rng.random() < 0.5 else _table(rng)
                 if op == 'set':
                     cf.set(xs, ys)
                 else:
